@@ -117,5 +117,33 @@ mod verif_x509_w {
         assert!(c[0] & 0x80 == 0, "non-negative");
         assert!(matches!(Mode::Der.decode(der, Serial::take_from), Ok(x) if x == sa), "DER round trip");
     }}
+
+    //@harness x509_w_serial_der W fn=Serial::take_from n=40000 timeout=600
+    verif_search!{ x509_w_serial_der; |a: u128, ah: u64, n: u8, lead: u8| {
+        // any INTEGER content of 1..=22 octets, biased towards the interesting first octets: only the minimal
+        // two's-complement encodings of non-negative numbers that fit 20 octets are serial numbers, and they
+        // decode to their numeric value (a negative INTEGER must never come back as a positive serial)
+        let len = 1 + (n % 22) as usize;
+        let mut c = Vec::with_capacity(24);
+        c.extend_from_slice(&ah.to_be_bytes()[2..]); c.extend_from_slice(&a.to_be_bytes());      // 22 octets
+        c.truncate(len);
+        match lead % 6 { 0 => c[0] = 0x00, 1 => c[0] = 0xFF, 2 => c[0] = 0x80, 3 => c[0] = 0x7F, 4 => { c[0] = 0; if len > 1 { c[1] |= 0x80 } }, _ => {} }
+        let mut der = vec![0x02u8, len as u8];
+        der.extend_from_slice(&c);
+        let negative = c[0] & 0x80 != 0;
+        let padded = len > 1 && c[0] == 0 && c[1] & 0x80 == 0;
+        let value: &[u8] = if len > 1 && c[0] == 0 { &c[1..] } else { &c[..] };                  // without the sign octet
+        let fits = value.len() <= 20;
+        let r = Mode::Der.decode(&der[..], Serial::take_from);
+        match r {
+            Ok(s) => {
+                assert!(!negative, "a negative INTEGER is not a serial number");
+                assert!(!padded, "only the minimal DER encoding is accepted");
+                let arr = s.into_array();
+                assert!(fits && arr[20 - value.len()..] == *value && arr[..20 - value.len()].iter().all(|x| *x == 0), "the serial is the numeric value of the INTEGER");
+            }
+            Err(_) => assert!(negative || padded || !fits || (value.len() == 20 && value[0] & 0x80 != 0), "a minimal non-negative INTEGER of at most 20 octets is accepted"),
+        }
+    }}
 }
 //@end
